@@ -16,6 +16,9 @@ fn fmt_round_scientific<R: Round>(
         // exponent / digit-count range: isize overflow of the printed exponent is outside this contract
         ndigits(B as int, self.significand.v()) <= isize::MAX,
         self.exponent as int + ndigits(B as int, self.significand.v()) <= isize::MAX,
+        // resource limit: exponent overflow is a documented panic (C16), not modelled: the rounding drops at most
+        // `digits` digits (`split_digits_ref`: bit position `pos * log2(B)` in usize)
+        pos_room(ndigits(B as int, self.significand.v()) as int),
     ensures
         // infinities are printed as `inf` / `-inf` and nothing else
         (self.significand.v() == 0 && self.exponent != 0 && ret is Ok) ==>
